@@ -14,6 +14,7 @@ def main():
     pipeline.load_vela()
     sched_lib.install()
     outs = sched_lib.corpus(ck, 1500 if ck.thorough else 150)
+    outs += sched_lib.stub_fast(ck.rng, 4000 if ck.thorough else 600)
     st = sched_lib.stage(ck, outs)
     ck.finish(dict(st, evaluations=st["sched_model_requests"] + st["sched_spec_requests"], distinct_nontrivial=st["sched_distinct_nontrivial"],
                    programs=len(outs),
